@@ -371,6 +371,10 @@ def gen_actor_case(rng, name, props, logger=False):
             it["ops"].append({"op": "fail", "code": "init%d" % it["id"]})
         elif kind == "stopinit":
             it["ops"].append({"op": "stop"})
+        elif kind == "failsome":
+            # fails and still returns a value: the failure must win
+            it["ops"].append({"op": "fail", "code": "fs%d" % it["id"]})
+            it["ret"] = "some"
         elif kind == "never":
             pass
         return it
@@ -378,14 +382,14 @@ def gen_actor_case(rng, name, props, logger=False):
     def mk_actor(ctx_ops, slab=False):
         aid = ids.next("aid")
         oid = ids.next("oid")
-        kind = rng.choice(["now", "now", "now", "async", "async", "fail", "never", "stopinit"])
+        kind = rng.choice(["now", "now", "now", "async", "async", "fail", "never", "stopinit", "failsome"])
         op = {"op": "acreate", "aid": aid, "oid": oid, "slab": slab}
         if kind == "async":
             steps = rng.randrange(1, 4)
             # chain of prep calls to self
             last = {"id": ids.next("item"), "ops": [], "ret": "some"}
-            if rng.random() < 0.2:
-                last["ret"] = "none"
+            if rng.random() < 0.25:
+                last["ret"] = rng.choice(["none", "some"])
                 last["ops"].append({"op": "fail", "code": "late%d" % last["id"]})
             cur = last
             for _ in range(steps):
